@@ -11,7 +11,7 @@ CHECKS = {
                         "ops outside the fixed domain (copy onto existing destination, remove of a view root, escaping paths) are skipped"],
         "essential_labels": {"all": ["via-child-view", "root-spelling", "inner-dotdot", "caller-scribbles", "writer"]},
         "tiers": {
-            "quick": [{"test": "^TestProp$", "checks": 2500, "shards": 4, "timeout": 240}],
+            "quick": [{"test": "^TestProp$", "checks": 12000, "shards": 4, "timeout": 240}],
             "thorough": [{"test": "^TestProp$", "checks": 40000, "shards": 16, "timeout": 3000}],
         },
     },
